@@ -94,8 +94,10 @@ def select__child_axis(self: XPathAxis, context: ta.ContextType = None) \
         # the dummy document of an Element root: its only child is the root element
         # (iter_children_or_self yields it without moving the context item)
         context.item, context.axis = context.root, 'child'
-        yield from self[0].select(context)
-        context.item, context.axis = context.document, None
+        try:
+            yield from self[0].select(context)
+        finally:
+            context.item, context.axis = context.document, None  # also when the consumer stops early or raises
     else:
         for _ in context.iter_children_or_self():
             yield from self[0].select(context)
@@ -154,14 +156,16 @@ def select__following_axis(self: XPathAxis, context: ta.ContextType = None) \
         # the descendants of the owner element and the owner's following nodes
         status = context.item, context.axis
         owner = context.item.parent
-        if owner is not None:
-            context.axis = 'following'
-            for context.item in owner.iter_descendants(with_self=False):
-                yield from cast(Iterator[ta.ChildNodeType], self[0].select(context))
-            context.item = owner
-            for _ in context.iter_followings():
-                yield from cast(Iterator[ta.ChildNodeType], self[0].select(context))
-        context.item, context.axis = status
+        try:
+            if owner is not None:
+                context.axis = 'following'
+                for context.item in owner.iter_descendants(with_self=False):
+                    yield from cast(Iterator[ta.ChildNodeType], self[0].select(context))
+                context.item = owner
+                for _ in context.iter_followings():
+                    yield from cast(Iterator[ta.ChildNodeType], self[0].select(context))
+        finally:
+            context.item, context.axis = status  # also when the consumer stops early or raises
     else:
         for _ in context.iter_followings():
             yield from cast(Iterator[ta.ChildNodeType], self[0].select(context))
